@@ -43,7 +43,7 @@ func init() {
 		Profiles:  []kit.ProfileSpec{{Name: "stream", Weight: 3}, {Name: "stream-bigbuf", Weight: 2}, {Name: "mitm", Weight: 4}},
 		QuickRuns: 8000, QuickBudgetS: 30, ThoroughRuns: 1200000, ThoroughBudgetS: 600,
 		Rule: "one run = two real ephemeral keys (newSecureKey, seeded crypto/rand), secureKey.setup on both sides with 2 secrets for a drawn AEAD suite (chacha20-poly1305, aes128-gcm, aes256-gcm), two SecureConn over one simulated link; " +
-			"writer tasks send 1..10 (thorough 1..24) writes of 1..16 / frame-size multiples +-1 / 1..5000 / 5000..20000 bytes in one or both directions, reader tasks call Read with a fresh buffer per call: profile stream 1..4096 bytes (1, 2..64, 512/1023/1024/1025/2048, uniform, 4096), profile stream-bigbuf 1024..4096 (isolates everything that does not depend on small buffers); ciphertext is delivered in tape-chosen chunks; 1/7 of stream runs kill the link at an arbitrary ciphertext byte. " +
+			"writer tasks send 1..10 (thorough 1..24) writes of 1..16 / frame-size multiples +-1 / 1..5000 / 5000..20000 bytes in one or both directions, reader tasks call Read with a fresh buffer per call: profile stream 1..4096 bytes (1, 2..64, 512/1023/1024/1025/2048, uniform, 4096), profile stream-bigbuf 1024..4096 (isolates everything that does not depend on small buffers); ciphertext is delivered in tape-chosen chunks; 1/7 of stream runs kill the link at an arbitrary ciphertext byte; 4% of all runs send a LONG stream A>B instead (257..700 or 3000..4200 writes of 1..3 bytes, one frame each: per-frame cipher state has carried over many times), and the man in the middle then acts on one of its last 40 frames. " +
 			"Profile mitm: exactly one manipulation of a ciphertext frame of direction A>B: flip a bit of body / tag / length prefix / unused prefix bytes, swap with the next frame, replay immediately, replay after the next frame, drop, truncate and close, reflect into the opposite direction (30% of mitm runs use read buffers 1..4096, the others 1024..4096). " +
 			"Oracle: keys A.out==B.in, A.in==B.out, in!=out; every Read returns 0<=n<=len(buf); bytes returned are exactly the next bytes of the written stream; after a clean close everything written was read and the reader sees EOF; after a manipulation no plaintext at or beyond the manipulated frame is delivered (flips of the two unused prefix bytes only must not change the plaintext). " +
 			"Non-trivial = at least one plaintext byte delivered and (mitm) the manipulation took place; distinct = distinct event-log hash.",
